@@ -64,6 +64,9 @@ type Script struct {
 	Rounds    []uint8 // round numbers, in order (e.g. 1,2,3)
 	Bcast     bool    // each round has a broadcast-class message of every transmitting party
 	P2P       bool    // each round has one point-to-point message per peer
+	// StrayTo: party identifiers to which every transmitting backend additionally addresses one point-to-point message per round
+	// although they are not among the parties it was initialised with (nobody represents them in the session)
+	StrayTo []uint16
 	AllAtOnce bool    // transmit the whole script at start, then only listen (stepped mode)
 	Hold      bool    // never complete: after the script, wait until the context ends (keeps stepped runs deterministic)
 	// Transmit: party ids that transmit (nil = all). Parties that do not transmit only listen.
@@ -209,6 +212,18 @@ func (b *Backend) transmitRound(r uint8) {
 			if p != b.Self {
 				b.emit(Payload{Kind: 'P', Round: r, Session: b.Session, Sender: b.Self, Dst: p, Version: 1}, false, p, fill(p))
 			}
+		}
+	}
+	// a protocol instance that addresses parties it was not initialised with (from stored data of an earlier key generation, say)
+	for _, p := range b.Script.StrayTo {
+		in := false
+		for _, q := range b.parties {
+			if q == p {
+				in = true
+			}
+		}
+		if !in {
+			b.emit(Payload{Kind: 'P', Round: r, Session: b.Session, Sender: b.Self, Dst: p, Version: 9}, false, p, 0)
 		}
 	}
 }
